@@ -58,10 +58,32 @@ def flux_case(draw, max_n=8, reactive_only=False):
         src, snk = draw(R.reactive_sets(ch))
     else:
         src, snk = draw(R.disjoint_sets(ch["n"], min_inter=1))
-    return {"chain": ch, "container": draw(st.sampled_from(R.CONTAINERS)),
+    case = {"chain": ch, "container": draw(st.sampled_from(R.CONTAINERS)),
             "sources": src, "sinks": snk,
             "src_form": draw(st.sampled_from(R.SET_FORMS)), "snk_form": draw(st.sampled_from(R.SET_FORMS)),
             "pops": draw(st.sampled_from(["none", "given"]))}
+    variant = draw(st.sampled_from(["plain", "plain", "plain", "float32_dyadic", "negative_ids"]))
+    if variant == "float32_dyadic" and ch["E"] is None:
+        # a float32 transition matrix whose entries are exact in float32: symmetric integer weights with the diagonal
+        # chosen so that every row sums to the same power of two (reversible, uniform populations).  Everything the
+        # library derives from it is still expected at double precision (populations are supplied in float64: the
+        # eigen-solver would otherwise legitimately run in single precision).
+        M = np.array(ch["M"], dtype=np.int64)
+        off = M.sum(axis=1) - np.diag(M)
+        tot = 1
+        while tot <= int(off.max()):
+            tot *= 2
+        M[np.arange(ch["n"]), np.arange(ch["n"])] = tot - off
+        ch["M"] = M.tolist()
+        case["t_dtype"] = "float32"
+        case["pops"] = "given"
+    elif variant == "negative_ids":
+        # numpy-style ids counted from the end (-1 is the last state) for every second member of each set
+        case["neg_ids"] = True
+        for k in ("src_form", "snk_form"):
+            if case[k] == "scalar":
+                case[k] = "list"
+    return case
 
 
 @st.composite
@@ -105,7 +127,15 @@ class Ctx:
     def args(self, container=None):
         c = self.case
         X = R.to_container(self.T, container or c["container"])
-        a = (X, R.set_arg(self.src, c["src_form"]), R.set_arg(self.snk, c["snk_form"]))
+        if c.get("t_dtype") == "float32":
+            X32 = X.astype(np.float32)
+            require(bool(np.array_equal(R.dense_of(X32).astype(np.float64), self.T)), "harness: T is not exact in float32")
+            X = X32
+        src, snk = self.src, self.snk
+        if c.get("neg_ids"):
+            src = [s - self.n if k % 2 == 0 else s for k, s in enumerate(src)]
+            snk = [s - self.n if k % 2 == 1 else s for k, s in enumerate(snk)]
+        a = (X, R.set_arg(src, c["src_form"]), R.set_arg(snk, c["snk_form"]))
         kw = {"populations": self.pi.copy()} if c["pops"] == "given" else {}
         return a, kw
 
@@ -118,7 +148,8 @@ class Ctx:
               "pops=" + c["pops"], "pi_uniform=%s" % uniform,
               "n_sources=%s" % min(len(self.src), 3), "n_sinks=%s" % min(len(self.snk), 3),
               "intermediates=%s" % min(len(self.inter), 3), "no_reactive_state=%s" % self.no_reactive_state,
-              "src_form=" + c["src_form"], "snk_form=" + c["snk_form"]]
+              "src_form=" + c["src_form"], "snk_form=" + c["snk_form"],
+              "t_dtype=" + c.get("t_dtype", "float64"), "negative_ids=%s" % bool(c.get("neg_ids"))]
         if "container" in c:
             cl.append("container=" + c["container"])
         return Info(nt, cl + list(extra))
@@ -254,6 +285,61 @@ def run_pops(case):
     check_pops(cx, _quiet(tpt.reactive_populations, *a, **kw))
     return cx.info()
 
+
+
+# --------------------------------------------------------------------------
+# clause 8: the same container object, refilled in place with another reversible chain, analysed again
+
+REFILL_CONT = ["ndarray", "ndarray_F", "lil", "csr_expl0"]
+
+
+@st.composite
+def refill_case(draw, max_n=7):
+    ch = draw(R.chain(max_n=max_n, kinds=R.REV_KINDS, wide_ok=False))
+    ch2 = draw(R.chain(min_n=ch["n"], max_n=ch["n"], kinds=R.REV_KINDS, wide_ok=False))
+    src, snk = draw(R.disjoint_sets(ch["n"], min_inter=1))
+    return {"chain": ch, "chain2": ch2, "sources": src, "sinks": snk, "container": draw(st.sampled_from(REFILL_CONT)),
+            "src_form": "list", "snk_form": "list", "pops": "none",
+            "first": draw(st.sampled_from(["reactive_fluxes", "net_fluxes", "reactive_populations"])),
+            "second": draw(st.sampled_from(["reactive_fluxes", "net_fluxes", "conservation"]))}
+
+
+def run_refill(case):
+    cx1 = Ctx(case)
+    case2 = dict(case)
+    case2["chain"] = case["chain2"]
+    cx2 = Ctx(case2)
+    X = R.to_container(cx1.T, case["container"])
+    src, snk = list(cx1.src), list(cx1.snk)
+    try:
+        first = _quiet(getattr(tpt, case["first"]), X, src, snk)
+    except Exception:
+        first = None            # e.g. reactive density identically zero: the first call only has to have happened
+    kept = None if first is None else np.array(R.dense_of(first), copy=True)
+    T2 = cx2.T
+    cont = case["container"]
+    if cont.startswith("ndarray"):
+        X[...] = T2
+    elif cont == "lil":
+        with warnings.catch_warnings():
+            warnings.simplefilter("ignore")
+            for i in range(cx1.n):
+                for j in range(cx1.n):
+                    X[i, j] = T2[i, j]
+    else:
+        X.data[...] = T2.ravel()
+    require(bool(np.array_equal(R.dense_of(X), T2)), "harness: refill failed")
+    if case["second"] == "reactive_fluxes":
+        F = _mat(_quiet(tpt.reactive_fluxes, X, src, snk), cx2.n, "reactive_fluxes")
+        check_flux(cx2, F)
+    else:
+        N = _mat(_quiet(tpt.net_fluxes, X, src, snk), cx2.n, "net_fluxes")
+        check_conservation(cx2, N)
+    if kept is not None:
+        require(bool(np.array_equal(R.dense_of(first), kept, equal_nan=True)), "the result of the first call changed during the second call")
+    differ = not np.allclose(cx1.pi, cx2.pi)
+    i = cx2.info(["first=" + case["first"], "second=" + case["second"], "populations_differ=%s" % differ])
+    return Info(i.nontrivial and differ, i.classes)
 
 # --------------------------------------------------------------------------
 # clause 5: every container, same values
@@ -452,6 +538,9 @@ CLAUSES = [
            doc="definition, net flux, conservation with per-edge relative tolerance on 150-400 state chains; arguments untouched"),
     Clause("arpack_chain", arpack_case(), run_arpack, quick=8, thorough=64,
            doc="definition + conservation on >=1000-state sparse chains with library-computed populations"),
+    Clause("second_call_refilled", refill_case(), run_refill, quick=600, thorough=5000,
+           doc="analyse, refill the same container object in place with another reversible chain, analyse again "
+               "(populations computed by the library both times)"),
     Clause("flux_definition_large", flux_case(max_n=25), run_flux, quick=0, thorough=2500),
     Clause("conservation_large", flux_case(max_n=25), run_conservation, quick=0, thorough=2500),
     Clause("reactive_populations_large", flux_case(max_n=25, reactive_only=True), run_pops, quick=0, thorough=1500),
